@@ -69,7 +69,8 @@ void ldb_block_destroy(ldb_block_t *b) { (void)b; }
 uint64_t ldb_lru_id(ldb_lru_t *lru) { (void)lru; return 1; }
 int ldb_bloom_name(char *buf, size_t size, const ldb_bloom_t *bloom) { (void)size; (void)bloom; buf[0] = 'f'; buf[1] = 0; return 1; }
 void ldb_slice_set_str(ldb_slice_t *z, const char *xp) { z->data = (uint8_t *)xp; z->size = 1; z->alloc = 0; }
-int ldb_slice_equal(const ldb_slice_t *x, const ldb_slice_t *y) { (void)x; (void)y; return vp_bool(); }
+static int eq_calls = 0, eq_result = 0;
+int ldb_slice_equal(const ldb_slice_t *x, const ldb_slice_t *y) { (void)x; (void)y; eq_calls++; eq_result = vp_bool(); return eq_result; }
 ldb_filter_t *ldb_filter_create(const ldb_bloom_t *policy, const ldb_slice_t *contents) { (void)contents; VP_ASSERT(policy == &the_policy, "filter reader uses the configured policy"); return &the_filter; }
 void ldb_filter_destroy(ldb_filter_t *f) { (void)f; }
 
@@ -115,6 +116,7 @@ harness(void) {
     VP_ASSERT(t != NULL && saw_index && rb_rc[0] == LDB_OK, "table opened only after its index block was read successfully");
     if (saw_filter) {
       VP_ASSERT(saw_meta && opt.filter_policy != NULL, "filter block read only through the metaindex, only with a policy");
+      VP_ASSERT(eq_calls == 1 && eq_result, "C16 the filter block is used only if the metaindex entry found is exactly filter.<policy name> (a filter built by another policy is never handed to this policy)");
       VP_WITNESS("filter-block-read");
     }
     if (opt.filter_policy == NULL)
